@@ -38,6 +38,10 @@ func main() {
 			genStd(cw, *seed, *tier)
 		case "c01":
 		genC01(cw, *seed, *tier)
+	case "c02":
+		genC02(cw, *seed, *tier)
+	case "c16":
+		genC16(cw, *seed, *tier)
 	case "c03":
 		genC03(cw, *seed, *tier)
 	case "c04":
